@@ -291,3 +291,20 @@ Theorem C07_configured_contract_depends_on_its_flag_only : forall env env' o o',
   Config.o_preconf_contract o = Config.o_preconf_contract o'.
 Proof. exact Config_proofs.preconf_contract_depends_on_its_flag_only. Qed.
 Print Assumptions C07_configured_contract_depends_on_its_flag_only.
+
+(* What the signer signs IS the transaction of the model: the byte string handed to keccak256 and the signature
+   (0x02 and the RLP list chain id, nonce, tip cap, fee cap, gas, destination, value, call data, empty access list;
+   lib/Rlp.v, model/EvmTxWire.v) determines all eight fields, so two different model transactions never share a
+   signing payload (and hence a signature check over it).  The driver compares these bytes with the ones
+   go-ethereum hashes for every raw transaction (class raw-tx). *)
+From MevVerif Require lib.Rlp model.EvmTxWire proofs.Rlp_proofs proofs.EvmTxWire_proofs.
+Theorem C07_wire_payload_determines_fields : forall (t1 t2 : EvmTx.dyntx) (p : bytes),
+  EvmTxWire.signing_payload t1 = Some p -> EvmTxWire.signing_payload t2 = Some p -> t1 = t2.
+Proof. exact EvmTxWire_proofs.wire_payload_determines_fields. Qed.
+Print Assumptions C07_wire_payload_determines_fields.
+
+(* the RLP decoder reads back every item tree the encoder accepts (arbitrary nesting, every length below 2^64) *)
+Theorem C07_rlp_decode_encode : forall (v : Rlp.item) (b : bytes),
+  Rlp.encode v = Some b -> Rlp.decode b = Rlp.ROk v.
+Proof. exact Rlp_proofs.rlp_decode_encode. Qed.
+Print Assumptions C07_rlp_decode_encode.
